@@ -15,7 +15,8 @@ T3 = [
     "cat|cat|cat", "cat|cat|mr", "cat|mr|cat", "cat|mr|mr", "mr|cat|cat", "mr|cat|mr",
     "mr|mr|cat", "mr|mr|mr", "cat|cai|cac", "cat|cac|cai", "mr|cai|cac", "mr|cac|cai",
     "cai|cac|cat", "cai|cac|mr", "cai|mr|cac", "cai|cat|cac", "cat_date|cat|cat",
-    "text|cat|mr", "cat|cat_date|cat", "binned|mr|cat",
+    "text|cat|mr", "cat|cat_date|cat", "binned|mr|cat", "numarr|cat|cat", "numarr|cat|mr",
+    "numarr|mr|cat",
 ]
 MODES = ["3d"] * 6 + ["tabbook", "ca0", "numsum", "tabbook"]
 RULE = (
@@ -38,6 +39,7 @@ DESIGN_REF = "DESIGN.md 4 C06"
 WEIGHTS = ["none", "frac", "zeros"]
 REQUIRED_REACH = ["partition_count", "twin", "table_name", "tabbook", "ca_as_0th", "numsum",
                   "class:table=CAT", "class:table=MR", "class:table=ARR", "class:square",
+                  "class:table=NUMARR",
                   "class:corpus", "filtercols", "class:augmented"]
 BATCH = 20
 UNIT_TIMEOUT_S = 40
@@ -81,9 +83,12 @@ def make_case(unit):
         if g.chance(0.5):
             cases.attach_insertions(g, facets, tr)
         mset = g.pick([(), (), ("mean",), ("sum", "stddev")])
-        if facets[-1][0] == "mr" and g.chance(0.8):
+        if "numarr" in template:
+            mset = g.pick([("mean",), ("mean", "sum"), ("sum",)])
+        elif facets[-1][0] == "mr" and g.chance(0.8):
             mset = tuple(mset) + ("overlap",)  # overlap-corrected pairwise tests per table
-        spec = sim.CubeSpec(facets, w, mset, g.num(N) if set(mset) - {"overlap"} else None)
+        spec = sim.CubeSpec(facets, w, mset, g.num(N) if (
+            set(mset) - {"overlap"} and "numarr" not in template) else None)
         if g.chance(0.4):
             from .c05 import add_display_transforms
 
@@ -173,6 +178,13 @@ def twin_spec(spec, k):
         s = spec.restrict(keep)
         s.facets = s.facets[1:]
         return s
+    if trole == "numarr":
+        # sub-variable k of the array becomes the measured numeric variable
+        s = copy.copy(spec)
+        s.facets = list(spec.facets[1:])
+        s.numvar = sim.NumVar("%s_%d" % (tvar.alias, k), tvar.x[:, k].copy())
+        s.measures = set(spec.measures) | {"valid_counts"}
+        return s
     if trole == "ca_items":
         # the CA categories of item k become a plain categorical variable
         ca = tvar
@@ -197,6 +209,8 @@ def _check_3d(res, case):
     spec = L.spec
     res.descriptor = cases.describe(case)
     res.classes.append("table=%s" % o.typestr(0))
+    if o.facets[0][0] == "numarr":
+        res.classes.append("table=NUMARR")
     if case.get("square"):
         res.classes.append("square")
     parts = read(L.cube, "partitions")
@@ -239,6 +253,10 @@ def _check_3d(res, case):
                          {"got": repr(p2)[:200]}):
             continue
         skip = set(SKIP_3D)
+        if trole == "numarr":
+            # the column index of a numeric-array response is outside C16's domain (its
+            # baseline mixes counts and valid counts): not compared, as in C05 / C08
+            skip |= {"column_index", "smoothed_column_index"}
         n = partcmp.compare_partitions(res, part, p2.value[0], "twin", "twin", skip=skip)
     res.nontrivial = nt >= 2 and o.N >= 6 and len(snaps) >= 2
 
